@@ -85,7 +85,7 @@ def cases(tier, seed):
     # histories: the checked run is not the first use of the device / mesh object
     for d in ("G1", "G3", "G4") if quick else ("G1", "G3", "G4", "G2"):
         cur = CURRENTS[len(TERMS[d])]
-        for prior in ("other_currents_first", "other_solver_alive", "unbiased_first"):
+        for prior in ("other_currents_first", "other_solver_alive", "unbiased_first", "solved_then_remeshed"):
             for c in (cur[1], cur[6]):
                 out.append(dict(fam="run", dev=d, dens="coarse", cur=c, field="static", adaptive=False, k=2, screening=False, units="um", seeded=False,
                                 prior=prior))
@@ -235,7 +235,12 @@ def run_run(case):
         other[names[-1]], other[names[0]] = 0.4 * cs, -0.4 * cs
         po = tdgl.SolverOptions(solve_time=3 * dt, dt_init=dt, dt_max=dt, adaptive=False, save_every=3, output_file="prior.h5",
                                 field_units=fu, current_units=cu, progress_interval=10**9)
-        if prior == "other_currents_first":
+        if prior == "solved_then_remeshed":
+            # the device was solved on a coarser mesh first and then meshed again (same object, new mesh)
+            dev.make_mesh(max_edge_length=1.3 * dev.layer.coherence_length, smooth=0)
+            tdgl.solve(dev, po, applied_vector_potential=0.1 * fs, terminal_currents=other)
+            dev.make_mesh(max_edge_length=0.62 * dev.layer.coherence_length, smooth=0)
+        elif prior == "other_currents_first":
             tdgl.solve(dev, po, applied_vector_potential=0.1 * fs, terminal_currents=other)
         elif prior == "unbiased_first":
             tdgl.solve(dev, po, applied_vector_potential=0.1 * fs, terminal_currents=None)
